@@ -37,7 +37,7 @@ CHECKS = {
    technique="runtime monitoring: /proc process-state monitor over enumerated start-failure causes"),
  "C06": dict(
    category="exploration",
-   text="Runtime monitor: rounds of 1-64 concurrently outstanding distinct ids on a real in-process net/rpc plugin connection (both directions, accept-first/dial-first, gaps inside the window, ids around the uint32 wrap, an Accept held (hook point) between pick-up and acknowledgement across the expiry instant of the parked dial, concurrent Dispense traffic incl. dispenses whose reserved id crosses the wrap and dispenses of a plugin whose Server() fails, seeded jitter at the mux hook points, race detector on); each end records the unique token and PRNG payload it read; the offline oracle checks the dial(id)<->accept(id) bijection, byte-exact payloads, no failure inside the window, and that every Dispense reaches a distinct server object of the requested name.",
+   text="Runtime monitor: rounds of 1-64 concurrently outstanding distinct ids on a real in-process net/rpc plugin connection (both directions, accept-first/dial-first, gaps inside the window, ids around the uint32 wrap, an Accept held (hook point) between pick-up and acknowledgement across the expiry instant of the parked dial, pairs on ids that were used before and straddle the earlier dial's 5 s mark, concurrent Dispense traffic incl. dispenses whose reserved id crosses the wrap and dispenses of a plugin whose Server() fails, seeded jitter at the mux hook points, race detector on); each end records the unique token and PRNG payload it read; the offline oracle checks the dial(id)<->accept(id) bijection, byte-exact payloads, no failure inside the window, and that every Dispense reaches a distinct server object of the requested name.",
    design_ref="DESIGN.md section 3, C06",
    note="Both ends in one process via plugin.TestPluginRPCConn; gaps kept >= 1 s inside the 5 s window.",
    technique="runtime monitoring: unique-token routing oracle over recorded accept/dial events, hook-point jitter, race detector"),
@@ -55,7 +55,7 @@ CHECKS = {
    technique="runtime monitoring: id/nonce echo + health re-check oracle over sequential multiplexed establishments, schedule perturbation at hook points"),
  "C09": dict(
    category="exploration",
-   text="Runtime monitor: histories of unmatched / duplicate / late / expiry-aligned broker operations (the expiry alignment is produced deterministically by blocking the expiry goroutine at a hook point) on MuxBroker, GRPCBroker and multiplexed GRPCBroker, each followed by matched pairs on fresh ids in both directions and a close; oracle: every call returns (nominal 5 s, hang threshold 40 s), unmatched calls fail, fresh pairs succeed, a final close racing with listener announcements lets every call return, no goroutine with broker frames remains after all clients are closed. The defects it found (D5, D6 stale knock, D19 leaked knock listener) are repaired; known_findings.json holds only fixed entries.",
+   text="Runtime monitor: histories of unmatched / duplicate / late / expiry-aligned broker operations (the expiry alignment is produced deterministically by blocking the expiry goroutine at a hook point) (incl. a second dial to an id whose waiting accept was already served) on MuxBroker, GRPCBroker and multiplexed GRPCBroker, each followed by matched pairs on fresh ids in both directions and a close; oracle: every call returns (nominal 5 s, hang threshold 40 s), unmatched calls fail, fresh pairs succeed, a final close racing with listener announcements lets every call return, no goroutine with broker frames remains after all clients are closed. The defects it found (D5, D6 stale knock, D19 leaked knock listener) are repaired; known_findings.json holds only fixed entries.",
    design_ref="DESIGN.md section 3, C09 and section 4 (D5, D6)",
    note="Bounded-progress reading of liveness; thresholds are generous so a loaded machine cannot manufacture alarms.",
    technique="runtime monitoring: bounded-progress oracle over fault histories with hook-controlled line-up, goroutine-dump leak monitor"),
@@ -67,31 +67,31 @@ CHECKS = {
    technique="runtime monitoring: launch-marker oracle against an independently computed digest, exhaustive single-bit/prefix sub-spaces"),
  "C04": dict(
    category="exploration",
-   text="Runtime monitor: real plugin subprocesses in nine shutdown behaviours (exit at once / after 200-1000 ms cleanup / after 1.2 s cleanup with a call that ignores cancellation in flight / never / busy / SIGSTOPped with state T awaited / already dead / failed handshake) x three protocols x three launch methods x four call patterns (single, sequential, concurrent Kill, CleanupClients over mixed managed clients in a host process of their own); after each Kill call returns the monitor reads /proc/<pid>/stat, Exited() and a cleanup-marker file written by the plugin after its cleanup; race detector on both processes.",
+   text="Runtime monitor: real plugin subprocesses in nine shutdown behaviours (exit at once / after 200-1000 ms cleanup / after 1.2 s cleanup with a call that ignores cancellation in flight / never / busy / SIGSTOPped with state T awaited / already dead / failed handshake) x three protocols x three launch methods x four call patterns (single, sequential, concurrent Kill, CleanupClients over mixed managed clients in a host process of their own, some of which had Kill called before their Start); after each Kill call returns the monitor reads /proc/<pid>/stat, Exited() and a cleanup-marker file written by the plugin after its cleanup; race detector on both processes.",
    design_ref="DESIGN.md section 3, C04",
    note="Bounded-time reading: Kill counts as hung after H=max(4N,N+15s); frozen net/rpc and mux plugins (bounded only by the 30+10 s yamux keep-alive) run in the thorough tier only; the not-force-killed clause is judged for non-concurrent patterns.",
    technique="runtime monitoring: /proc + cleanup-marker oracle over real subprocess shutdown behaviours, race detector"),
  "C02": dict(
    category="exploration",
-   text="Runtime monitor: one real plugin subprocess per (host version set, plugin version set) pair over versions 0-4 with versioned / legacy / mixed layouts and per-version wire protocols; every plugin set carries a version tag reported by the dispensed implementation and by the host-side wrapper; half the cases also run the plugin directly with a chosen PLUGIN_PROTOCOL_VERSIONS to read the raw announced line. Relaunch cases start a second plugin (other version sets) through the same ClientConfig object. Oracle = set arithmetic (highest common version, lowest when no list, incompatible-version error + terminated process when disjoint). Thorough is exhaustive over all 31x31 subset pairs.",
+   text="Runtime monitor: one real plugin subprocess per (host version set, plugin version set) pair over versions 0-4 with versioned / legacy / mixed layouts and per-version wire protocols; every plugin set carries a version tag reported by the dispensed implementation and by the host-side wrapper; half the cases also run the plugin directly with a chosen PLUGIN_PROTOCOL_VERSIONS to read the raw announced line. Relaunch cases start a second plugin (other version sets) through the same ClientConfig object; overlap cases give the host a ProtocolVersion that also has its own VersionedPlugins entry while Plugins holds another version's set. Oracle = set arithmetic (highest common version, lowest when no list, incompatible-version error + terminated process when disjoint). Thorough is exhaustive over all 31x31 subset pairs.",
    design_ref="DESIGN.md section 3, C02",
    note="Sets registered under one version use the same wire protocol on both sides; GRPCServer configured whenever a plugin-side set is gRPC.",
    technique="runtime monitoring: version-tag echo + raw handshake line capture, set-arithmetic oracle (exhaustive in thorough)"),
  "C03": dict(
    category="fault_enumeration",
-   text="Fault enumeration by runtime monitor: named crash points (hook points inside go-plugin armed to SIGKILL / os.Exit, points in the scripted plugin, external SIGKILL while idle and at seeded instants under traffic, plugins that printed more lines with the handshake line and later exit by themselves) x three protocols x the host operation in flight, on real subprocesses; every in-flight and subsequent host call is recorded at the API boundary and must return within the hang threshold, with an error where it needed the plugin; Exited() and the gRPC client context are polled as bounded progress after the observed death; the host child must survive.",
+   text="Fault enumeration by runtime monitor: named crash points (hook points inside go-plugin armed to SIGKILL / os.Exit, points in the scripted plugin, external SIGKILL while idle and at seeded instants under traffic, plugins that printed more lines with the handshake line and later exit by themselves, a host-side hook point that kills the plugin while a broker message sits between the host's stream goroutine and the wire) x three protocols x the host operation in flight, on real subprocesses; every in-flight and subsequent host call is recorded at the API boundary and must return within the hang threshold, with an error where it needed the plugin; Exited() and the gRPC client context are polled as bounded progress after the observed death; the host child must survive.",
    design_ref="DESIGN.md section 3, C03",
    note="Nominal bounds <= 6 s, hang threshold 24 s; a crash point that is never reached makes the case inconclusive.",
    technique="runtime monitoring: crash-point injection via hook points and signals, call/return log judged against a needs-the-plugin table"),
  "C11": dict(
    category="exploration",
-   text="Runtime monitor: a real serving plugin (net/rpc, gRPC, gRPC+mux) writes self-describing frames ([stream tag][seq][len][PRNG payload]) to its stdout/stderr according to seeded plans (sizes around the 1 KiB / 4 KiB boundaries up to 1 MiB, two writer goroutines, optional RPC traffic, data written before the host attaches, more than pipe capacity, lone writes of exact buffer-multiple sizes followed by silence); the host regenerates the expected streams and checks every 20 ms that what arrived on SyncStdout/SyncStderr is a prefix of them (no duplication, reordering, corruption, crossing) and, after the acknowledged last write, that everything arrives (bounded progress).",
+   text="Runtime monitor: a real serving plugin (net/rpc, gRPC, gRPC+mux) writes self-describing frames ([stream tag][seq][len][PRNG payload]) to its stdout/stderr according to seeded plans (sizes around the 1 KiB / 4 KiB boundaries up to 1 MiB, two writer goroutines, optional RPC traffic, data written before the host attaches, more than pipe capacity, lone writes of exact buffer-multiple sizes followed by silence; for gRPC also a sync writer that refuses or half-accepts every third write, whose refused bytes must never reach the other stream); the host regenerates the expected streams and checks every 20 ms that what arrived on SyncStdout/SyncStderr is a prefix of them (no duplication, reordering, corruption, crossing) and, after the acknowledged last write, that everything arrives (bounded progress).",
    design_ref="DESIGN.md section 3, C11",
    note="Loss is judged 15 s after the plugin acknowledged its last write with the connection still answering Ping.",
    technique="runtime monitoring: prefix-of-regenerated-stream oracle over self-describing frames, race detector on both processes"),
  "C12": dict(
    category="exploration",
-   text="Runtime monitor with hostile peers: for every connection path (main listeners of all three protocols incl. a race for the multiplexed listener's single session, plugin-side and host-side brokered gRPC listeners) intruders with five credential classes speak the real wire protocol and any answered RPC is a violation, while a positive control by the legitimate peer must succeed in the same case; plugins started directly with PLUGIN_CLIENT_CERT in eight unusual shapes are attacked the same way; impostor plugins announce one certificate and serve another (or plaintext, or another leaf with the announced certificate appended to its chain) with the real protocol and any completed host RPC is a violation.",
+   text="Runtime monitor with hostile peers: for every connection path (main listeners of all three protocols incl. a race for the multiplexed listener's single session, plugin-side and host-side brokered gRPC listeners reached by their sockets and, with and without multiplexing, over the legitimate session through DialWithOptions with replaced transport credentials) intruders with five credential classes speak the real wire protocol and any answered RPC is a violation, while a positive control by the legitimate peer must succeed in the same case; plugins started directly with PLUGIN_CLIENT_CERT in eight unusual shapes are attacked the same way; impostor plugins announce one certificate and serve another (or plaintext, or another leaf with the announced certificate appended to its chain) with the real protocol and any completed host RPC is a violation.",
    design_ref="DESIGN.md section 3, C12",
    note="Samples credential classes with fresh keys per case; cases without a successful positive control are inconclusive.",
    technique="runtime monitoring: intruder/impostor probes with positive controls against real AutoMTLS plugin processes"),
@@ -103,7 +103,7 @@ CHECKS = {
    technique="runtime monitoring: external process/syscall monitor (strace) plus raw stdio and file-system observation"),
  "C14": dict(
    category="exploration",
-   text="Runtime monitor over the configuration cross product (576 cells + option conflicts + plugins that ignore PLUGIN_CLIENT_CERT + hosts that set AutoMTLS and a static TLSConfig together + raw-line plugins; quick = seeded sample with every expectation kind, thorough = exhaustive): each cell launches a real plugin subprocess and records start error class, protocol in use, Ping, identity-tagged call, brokered callbacks in both directions, an 8 MiB response, 5 MiB responses on brokered connections, Dispense of an unknown name, process state after refusals, hangs and panics; a classification table written from the statement (MUST_WORK / MUST_FAIL_AT_START(kind) / MUST_NOT_WORK / EITHER_BUT_CLEAN) is the oracle.",
+   text="Runtime monitor over the configuration cross product (576 cells + option conflicts + plugins that ignore PLUGIN_CLIENT_CERT + hosts that set AutoMTLS and a static TLSConfig together + raw-line plugins + cells with several versions per side and a wire protocol per version; quick = seeded sample with every expectation kind, thorough = exhaustive): each cell launches a real plugin subprocess and records start error class, protocol in use, Ping, identity-tagged call, brokered callbacks in both directions, an 8 MiB response, 5 MiB responses on brokered connections, Dispense of an unknown name, process state after refusals, hangs and panics; a classification table written from the statement (MUST_WORK / MUST_FAIL_AT_START(kind) / MUST_NOT_WORK / EITHER_BUT_CLEAN) is the oracle.",
    design_ref="DESIGN.md section 3, C14",
    note="Documented-unsupported combinations (AutoMTLS+TLSProvider, AutoMTLS+reattach) are only required to be clean; static TLS is configured so that both sides can act as TLS server and client (brokered connections need both roles).",
    technique="runtime monitoring: classification-table oracle over the real configuration cross product (exhaustive in thorough)"),
@@ -121,7 +121,7 @@ CHECKS = {
    technique="runtime monitoring: file-system listing + goroutine-dump leak monitor after graceful shutdown"),
  "C20": dict(
    category="exploration",
-   text="Sanitizer + runtime monitor: concurrent rounds (4/16/64 goroutines) over in-process MuxBroker / GRPCBroker / multiplexed pairs and over one real Client with a race-built plugin process serving several dispensed implementations and brokered connections; a third of the rounds race Close / server Stop / concurrent Kill with in-flight operations; managed clients are created while CleanupClients runs; seeded jitter at every hook point. The Go race detector runs in both processes (reports attributed to go-plugin by accessing frame and de-duplicated by function pair), host deaths, recovered panics and plugin-side panic lines are violations, and the multiset of NextId results must be duplicate-free.",
+   text="Sanitizer + runtime monitor: concurrent rounds (4/16/64 goroutines) over in-process MuxBroker / GRPCBroker / multiplexed pairs and over one real Client with a race-built plugin process serving several dispensed implementations and brokered connections; a third of the rounds race Close / server Stop / concurrent Kill with in-flight operations; managed clients are created while CleanupClients runs; every other client round uses AutoMTLS against a plugin logging to stderr from process start; seeded jitter at every hook point. The Go race detector runs in both processes (reports attributed to go-plugin by accessing frame and de-duplicated by function pair), host deaths, recovered panics and plugin-side panic lines are violations, and the multiset of NextId results must be duplicate-free.",
    design_ref="DESIGN.md section 3, C20",
    note="A clean race-detector run covers only the accesses and schedules this workload produced (bounded per-location history).",
    technique="sanitizer: Go race detector on host and plugin under a concurrent stress workload, plus panic and NextId-uniqueness monitors"),
